@@ -131,6 +131,8 @@ def concretise(cm, spec):
         if name == "get_days_in_year_range":
             return {"op": "fn", "name": name, "args": [y, y + spec["span"]]}
         return {"op": "fn", "name": name, "args": [y]}
+    if k == "month_table":
+        return {"op": "month_table", "y": y}
     if k == "iter":
         kw = {"in_reverse": True} if spec["rev"] else {}
         args = [y] if not spec["from"] else [y, f % 12 + 1, 1]
@@ -286,6 +288,15 @@ def do_compute(state, spec, workers):
         if got != want_text:
             return op, ("definition: mode %s %s -> %s, the mode's calendar "
                         "gives %s" % (cm, json.dumps(op), got, want_text))
+    if op["op"] == "month_table":
+        y = op["y"]
+        ml = list(R.mlens(cm, y))
+        ref = [ml, R.ylen(cm, y),
+               [[mo, d] for mo in (2, 4, 12) for d in (28, 29, 30, 31)
+                if d <= ml[mo - 1]]]
+        if got != ref:
+            return op, ("definition: mode %s month table of year %d: %r, the "
+                        "mode's definition gives %r" % (cm, y, got, ref))
     if op["op"] == "dur_cmp" and isinstance(got, list):
         # a nominal year counts as the mode's common-year length
         want_days = op["a"]["years"] * R.ylen(cm, 2001)
@@ -407,6 +418,10 @@ def make_machine(ctx, workers, seen):
               y=Y, f=Fr, span=st.sampled_from([0, 1, 2, 4, 20, 100, -1]))
         def length(self, name, y, f, span):
             self._compute({"k": "len", "name": name, "y": y, "f": f, "span": span})
+
+        @rule(y=Y)
+        def month_table(self, y):
+            self._compute({"k": "month_table", "y": y})
 
         @rule(y=Y, f=Fr, rev=st.booleans(), frm=st.booleans())
         def iter_days(self, y, f, rev, frm):
